@@ -43,16 +43,39 @@ def envOf (j : Json) : Env :=
     bareBuiltin := fun c => bare.contains c
     tv := fun t => tvs[t]?.getD ⟨[], none, false, .inv⟩ }
 
-def kindOf (j : Json) (init : Bool) : StoreKind :=
+/-- {"k": "shape", "gen": bool, "p": [tv…], "ob": [[is Generic[...], [ann…]]…], "act": [ann…] | null}: the class statement as typing sees it
+    and the type arguments of the creating expression; `init`: the call is made before `__init__` has returned -/
+def shapeOf (j : Json) (init : Bool) : Shape :=
+  { genericInBases := jB (jF j "gen"), params := (jL (jF j "p")).map jN,
+    origBases := (jL (jF j "ob")).map fun b => (jB (jAt b 0), (jL (jAt b 1)).map annOf),
+    declared := (match jF j "act" with | .arr a => some (a.toList.map annOf) | _ => none), inInit := init }
+
+/-- `spec`: the store kind the specification is told (for a class shape: `Cls[X]` binds the parameters of the class to `X`) -/
+def kindOf (j : Json) (init : Bool) (spec : Bool) : StoreKind :=
   match jS (jF j "k") with
   | "generic" => .genericInstance ((jL (jF j "p")).map jN) (if init then [] else (jL (jF j "g")).map fun p => (jN (jAt p 0), annOf (jAt p 1)))
   | "reset" => .resetEachAccess
+  | "shape" => if spec then Spec.shapeKind (shapeOf j init) else ((shapeOf j init).kind).getD .perCall
   | _ => .perCall
 
-def callOf (insts : Array Json) (j : Json) : Call :=
+/-- the accessor of the instance raises an exception that is no PedanticException (class shapes only) -/
+def escapesOf (j : Json) (init : Bool) : Bool :=
+  match jS (jF j "k") with
+  | "shape" => ((shapeOf j init).kind).isNone
+  | _ => false
+
+/-- {"named": [name…], "vnames": [name…], "ann": a, "items": [[key, v]…], "pos": n} (absent: no `**` parameter) -/
+def varKwOf (j : Json) : Option VarKw :=
+  match j with
+  | .obj _ => some { named := (jL (jF j "named")).map jS, vnames := (jL (jF j "vnames")).map jS, ann := annOf (jF j "ann"),
+                     items := (jL (jF j "items")).map fun kv => (jS (jAt kv 0), valOf (jAt kv 1)), pos := jN (jF j "pos") }
+  | _ => none
+
+def callOf (insts : Array Json) (spec : Bool) (j : Json) : Call :=
   let i := jN (jF j "i")
-  { inst := i, fn := jN (jF j "f"), kind := kindOf (insts[i]?.getD Json.null) (jB (jF j "init")), scanFails := jB (jF j "scan"),
-    checks := (jL (jF j "checks")).map fun p => (annOf (jAt p 0), valOf (jAt p 1)) }
+  let checks := (jL (jF j "checks")).map fun p => (annOf (jAt p 0), valOf (jAt p 1))
+  { inst := i, fn := jN (jF j "f"), kind := kindOf (insts[i]?.getD Json.null) (jB (jF j "init")) spec, scanFails := jB (jF j "scan"),
+    checks := if spec then Spec.spliceSpec checks (varKwOf (jF j "vkw")) else spliceChecks checks (varKwOf (jF j "vkw")) }
 
 def outS : Out → String
   | .ok => "ok" | .pedTypeCheck => "PED:TypeCheck" | .pedTVMismatch => "PED:TypeVarMismatch" | .escape => "ESC"
@@ -62,9 +85,13 @@ def verdictS : Spec.Verdict → String
 
 /-- a step with the calls its body makes: {…step…, "kids": [step…]} (absent: none).  The checks before the body are all but
     the last one (the check of the result). -/
-partial def treeOf (insts : Array Json) (j : Json) : Tree :=
-  let c := callOf insts j
-  .node c (c.checks.length - 1) ((jL (jF j "kids")).map (treeOf insts))
+partial def treeOf (insts : Array Json) (spec : Bool) (j : Json) : Tree :=
+  let c := callOf insts spec j
+  .node c (c.checks.length - 1) ((jL (jF j "kids")).map (treeOf insts spec))
+
+/-- the nested calls of a step, pre-order -/
+partial def belowSteps (j : Json) : List Json :=
+  (jL (jF j "kids")).flatMap fun k => k :: belowSteps k
 
 def optOutJ : Option Out → Json
   | some o => jStr (outS o)
@@ -75,40 +102,51 @@ def splitSegs (checks : List (A × Val)) : List Nat → List (List (A × Val))
   | n :: ns => checks.take n :: splitSegs (checks.drop n) ns
 
 /-- a call in flight: {…step…, "segs": [number of checks of each advance…], "eager": bool} -/
-def jobOf (insts : Array Json) (j : Json) : Job :=
-  let c := callOf insts j
+def jobOf (insts : Array Json) (spec : Bool) (j : Json) : Job :=
+  let c := callOf insts spec j
   Job.fresh c (jB (jF j "eager")) (splitSegs c.checks ((jL (jF j "segs")).map jN))
 
 /-- a top-level step: with "order" the body advances the calls "kids" in that order, otherwise "kids" are nested calls made one after the other -/
-def topOf (insts : Array Json) (j : Json) : Top :=
+def topOf (insts : Array Json) (spec : Bool) (j : Json) : Top :=
   match jF j "order" with
-  | .arr o => .sched (callOf insts j) ((jL (jF j "kids")).map (jobOf insts)) (o.toList.map jN)
-  | _ => .tree (treeOf insts j)
+  | .arr o => .sched (callOf insts spec j) ((jL (jF j "kids")).map (jobOf insts spec)) (o.toList.map jN)
+  | _ => .tree (treeOf insts spec j)
 
 def Top.call : Top → Call
   | .tree t => t.call
   | .sched root _ _ => root
 
 /-- case: {"env": …, "insts": [{"k": "generic", "p": [tv…], "g": [[tv, ann]…]} | {"k": "reset"} | {"k": "direct"} | {"k": "plain"}],
-           "steps": [{"i": inst, "f": function id, "init": bool, "scan": bool, "checks": [[ann, val]…], "kids": [step…] (, "order": [kid…])}]} -/
+           "steps": [{"i": inst, "f": function id, "init": bool, "scan": bool, "checks": [[ann, val]…], "kids": [step…] (, "order": [kid…]) (, "vkw": …)}]}
+    Instances may also be class shapes (`shapeOf`); the checks of a `**` parameter are derived from the keyword arguments (`varKwOf`). -/
 def handle (c : Json) : Json :=
   let env := envOf (jF c "env")
   let insts := jA (jF c "insts")
-  let ts := (jL (jF c "steps")).map (topOf insts)
-  let h := ts.map Top.call
-  let r := runTops env ts Stores.empty
+  let steps := jL (jF c "steps")
+  let ts := steps.map (topOf insts false)
+  let esc := steps.map fun j => escapesOf (insts[jN (jF j "i")]?.getD Json.null) (jB (jF j "init"))
+  -- what the specification is told: the same calls, with the store kind / the `**` values the property speaks of
+  let tsS := steps.map (topOf insts true)
+  let h := tsS.map Top.call
+  let shapeRegOf (j : Json) : List String :=
+    let ij := insts[jN (jF j "i")]?.getD Json.null
+    if jS (jF ij "k") == "shape" then Spec.shapeRegions (shapeOf ij (jB (jF j "init"))) else []
+  let shapeRegs := steps.map shapeRegOf
+  let r := runTopsE env (esc.zip ts) Stores.empty
   let below (t : Top) : List Call := match t with
     | .tree _ => []
     | .sched _ jobs _ => jobs.map (·.c)
   mkObj [("model", jArr (r.map fun o => jStr (outS o.1))),
          ("nested", jArr (r.map fun o => jArr (o.2.map optOutJ))),
          ("spec", jArr ((Spec.specHistory env h).map fun v => jStr (verdictS v))),
-         ("nspec", jArr (ts.map fun t => match t with
+         ("nspec", jArr (tsS.map fun t => match t with
             | .tree t => jArr ((Spec.specBelow env t).map fun v => jStr (verdictS v))
             | x => jArr ((below x).map fun c => jStr (verdictS (Spec.specCall env c))))),
-         ("regions", jArr ((Spec.regionsHistory env [] h).map fun rs => jArr (rs.map jStr))),
-         ("nregions", jArr (ts.map fun t => match t with
+         ("regions", jArr (((Spec.regionsHistory env [] h).zip shapeRegs).map fun rs => jArr ((rs.2 ++ rs.1).map jStr))),
+         ("nregions", jArr (tsS.map fun t => match t with
             | .tree t => jArr ((Spec.regionsBelow env [] t).map fun rs => jArr (rs.map jStr))
-            | x => jArr ((below x).map fun c => jArr ((Spec.regions env [] c).map jStr))))]
+            | x => jArr ((below x).map fun c => jArr ((Spec.regions env [] c).map jStr)))),
+         -- the regions of the class shape of the instance every nested call is made on (pre-order, aligned with "nregions")
+         ("nshape", jArr (steps.map fun j => jArr ((belowSteps j).map fun k => jArr ((shapeRegOf k).map jStr))))]
 
 end PedVerif.Drv.TypeVars
